@@ -26,7 +26,7 @@ FAMILIES = [
   "called only from QueueReader::parse_byte_streams on the branch bit_size() != 0, i.e. integer_bits(min, max) > 0, which is exactly max as i128 - min as i128 > 0 (C12-R1 width guard, C12-R3 zero-width wiring); the argument is that same difference of the same record"),
  (r"PagedReader::(read_page|new|align) \||^read \| (index|Overflow\(Add\)) \| arg1\.(page_buffer|offset)",
   "PagedReader::new establishes page_size in [5, 2^20] (inferred field invariant) and rejects empty files and sizes that are no multiple of the page size (C15-R4 size-check/*), so pages = size / page_size >= 1 and pages * (page_size - 4) <= size; read_page / read test page < pages first, so page * page_size < size; page_buffer = vec![0; page_size] is never resized (C07-R1 who-may-write), so page_size - 4 <= len and offset % (page_size-4) + min(.., page_size-4 - offset % (page_size-4)) <= page_size - 4; offset <= log_file_size + 3 < 2^63"),
- (r"^(next|PointCloudWriter::add_point|E57Reader::validate_crc) \| Overflow\(Add\) \| (arg1\.(read|point_count)|phi\(0_u64 \| \(_\d+ Add 1_u64\)\)) ; 1_u64",
+ (r"^(next|PointCloudWriter::add_point|E57Reader::validate_crc) \| Overflow\(Add\) \| (arg1\.(read|point_count)|phi\(0_u64 \| \(<page> Add 1_u64\)\)) ; 1_u64",
   "64-bit counter incremented once per yielded point / added point / validated page: it cannot reach 2^64 in any feasible run"),
  (r"^size_hint \| Overflow\(Sub\) \| arg1\.(pc\.)?records ; arg1\.read",
   "read <= records: read starts at 0 (C17-R5 fresh-iterator) and is incremented only on the read < records edge of next() (C01-R7 / C05-R6 yield-bounded); records is a private copy taken at construction"),
